@@ -211,8 +211,11 @@ def unsrc(s: str, extra: t.Optional[t.Dict[str, t.Any]] = None) -> t.Any:
     return eval(s, {"__builtins__": {}}, ns)  # noqa: S307 - replay files are produced by this harness
 
 
-def freeze(o: t.Any) -> t.Any:
-    """Structural canonical form (finer than observational equivalence, hence sound to merge on)."""
+Path = t.Tuple[t.Any, ...]
+_NOISE: t.Dict[type, t.FrozenSet[Path]] = {}
+
+
+def _freeze(o: t.Any, skip: t.FrozenSet[Path], path: Path) -> t.Any:
     if isinstance(o, (bytes, str, int, float, type(None), bool)):
         return o
     if isinstance(o, enum.Enum):
@@ -220,16 +223,126 @@ def freeze(o: t.Any) -> t.Any:
     if isinstance(o, (bytearray, memoryview)):
         return bytes(o)
     if isinstance(o, (set, frozenset)):
-        return ("set",) + tuple(sorted((freeze(x) for x in o), key=repr))
-    if isinstance(o, (list, tuple)):
-        return tuple(freeze(x) for x in o)
+        return ("set",) + tuple(sorted((_freeze(x, skip, path + ("*",)) for x in o), key=repr))
+    if isinstance(o, (list, tuple)) or type(o).__name__ == "deque":
+        return tuple(_freeze(x, skip, path + (i,)) for i, x in enumerate(o))
     if isinstance(o, dict):
-        return tuple(sorted(((k, freeze(v)) for k, v in o.items()), key=repr))
+        return tuple(sorted(((k, _freeze(v, skip, path + (k,))) for k, v in o.items() if not (skip and path + (k,) in skip)), key=repr))
     if isinstance(o, type):
         return o.__qualname__
-    if hasattr(o, "__dict__"):
-        return (type(o).__qualname__,) + freeze(vars(o))
+    if isinstance(o, sansldap.LDAPSession) and not path:
+        skip = session_noise(type(o))
+    d = getattr(o, "__dict__", None)
+    if d is None and hasattr(type(o), "__slots__"):
+        d = {}
+        for klass in type(o).__mro__:
+            for name in getattr(klass, "__slots__", ()):
+                if name not in ("__dict__", "__weakref__") and hasattr(o, name):
+                    d[name] = getattr(o, name)
+    if d is not None:
+        return (type(o).__qualname__,) + _freeze(d, skip, path)
     return repr(o)
+
+
+def freeze(o: t.Any) -> t.Any:
+    """Structural canonical form (finer than observational equivalence, hence sound to merge on).
+
+    For a session object, the attribute paths that differ between two independent runs of the *same* history
+    (instance counters taken from a global, timestamps, ...) are left out: by construction they carry nothing
+    a history determines, and keeping them would only stop equal states from merging.
+    """
+    return _freeze(o, frozenset(), ())
+
+
+def _diff_paths(a: t.Any, b: t.Any, path: Path, out: t.Set[Path]) -> None:
+    if a == b:
+        return
+    if isinstance(a, tuple) and isinstance(b, tuple) and len(a) == len(b) and a and isinstance(a[0], str) and a[0] == b[0] and len(a) == 2 and False:
+        return
+    # frozen objects are (qualname, (k, v), (k, v)...) ; frozen dicts are ((k, v), ...)
+    da, db = _as_items(a), _as_items(b)
+    if da is not None and db is not None and set(da) == set(db):
+        for k in da:
+            _diff_paths(da[k], db[k], path + (k,), out)
+        return
+    out.add(path)
+
+
+def _as_items(x: t.Any) -> t.Optional[t.Dict[t.Any, t.Any]]:
+    if not isinstance(x, tuple):
+        return None
+    body = x[1:] if x and isinstance(x[0], str) and all(isinstance(e, tuple) and len(e) == 2 for e in x[1:]) else x
+    if all(isinstance(e, tuple) and len(e) == 2 and isinstance(e[0], (str, int)) for e in body) and body:
+        try:
+            return dict(body)
+        except (TypeError, ValueError):
+            return None
+    return None
+
+
+def _calibration_runs(cls: type) -> t.List[t.Callable[[], t.Any]]:
+    """Short deterministic histories; each is run twice on independent objects and the two results are diffed."""
+    import sansldap as L
+
+    def fresh() -> t.Any:
+        return cls()
+
+    def traffic() -> t.Any:
+        s = cls()
+        try:
+            if isinstance(s, L.LDAPClient):
+                s.search_request()
+                s.data_to_send(3)
+                s.data_to_send()
+                s.receive(b"\x30\x0c\x02\x01\x01\x65")  # half a SearchResultDone
+                try:
+                    s.bind_simple()  # refused: a search is outstanding
+                except L.LDAPError:
+                    pass
+            else:
+                s.receive(b"\x30\x0c\x02\x01\x01\x77\x07\x80\x03\x31\x2e\x32")  # ExtendedRequest 1.2, id 1... (partial or whole)
+                try:
+                    s.search_result_done(9)  # refused: unknown id
+                except L.LDAPError:
+                    pass
+                s.data_to_send()
+        except L.LDAPError:
+            pass
+        return s
+
+    def closed() -> t.Any:
+        s = cls()
+        try:
+            s.receive(b"\x04\x00")
+        except L.LDAPError:
+            pass
+        try:
+            s.receive(b"\x04\x00")
+        except L.LDAPError:
+            pass
+        return s
+
+    return [fresh, traffic, closed]
+
+
+def session_noise(cls: type) -> t.FrozenSet[Path]:
+    got = _NOISE.get(cls)
+    if got is None:
+        _NOISE[cls] = frozenset()  # (re-entrancy: the diff below calls _freeze)
+        out: t.Set[Path] = set()
+        try:
+            for run in _calibration_runs(cls):
+                a, b = run(), run()
+                _diff_paths(_freeze(vars(a), frozenset(), ()), _freeze(vars(b), frozenset(), ()), (), out)
+        except Exception:  # noqa: BLE001 - a class that cannot be built without arguments has no calibration
+            out = set()
+        got = _NOISE[cls] = frozenset(out)
+    return got
+
+
+def public_view(session: t.Any) -> t.Any:
+    """What a caller can see of a session without calling anything: its public instance attributes."""
+    return tuple(sorted(((k, freeze(v)) for k, v in vars(session).items() if not k.startswith("_")), key=repr))
 
 
 def protocol_view(session: t.Any) -> t.Any:
